@@ -36,6 +36,8 @@ package collection
 //@ ghost func sumPoints(v map[string]ref) int
 //@ ghost func sumWeight(v map[string]ref) int
 //@ axiom sum.empty: sumSpatial(emptyStrMap()) == 0 && sumString(emptyStrMap()) == 0 && sumPoints(emptyStrMap()) == 0 && sumWeight(emptyStrMap()) == 0
+// sums of 0/1 indicators (and of non-negative weights) are non-negative
+//@ axiom sum.nonneg: allof("map[string]ref", v, sumSpatial(v) >= 0 && sumString(v) >= 0 && sumPoints(v) >= 0)
 //@ axiom sum.update: allof("map[string]ref", v, allstr(k, allint(o, sumSpatial(store(v, k, o)) == sumSpatial(v) - indSpatial(v[k]) + indSpatial(o) && sumString(store(v, k, o)) == sumString(v) - indString(v[k]) + indString(o) && sumPoints(store(v, k, o)) == sumPoints(v) - indPoints(v[k]) + indPoints(o) && sumWeight(store(v, k, o)) == sumWeight(v) - indWeight(v[k]) + indWeight(o))))
 
 // ---- the invariant ---------------------------------------------------------
